@@ -519,7 +519,12 @@ class _Run:
         fpos = self.focus_pos()
         if m == "insert":
             i = op.get("i", 0) % (n + 1)
-            w = build_item(op.get("item", {"k": "text", "text": "ins"}))
+            if op.get("dup") is not None and n and not custom:
+                # the same widget object a second time ("widgets may be reused in different locations")
+                w = wk[op["dup"] % n]
+                self.res.probe("same_widget_object_at_two_positions")
+            else:
+                w = build_item(op.get("item", {"k": "text", "text": "ins"}))
             wk.insert(i, w)
             self.log.add("walker", ["insert", i, spec_str(op.get("item"))])
             if fpos is not None and i <= fpos:
@@ -899,6 +904,8 @@ class ListBoxEngine(Engine):
                 op = {"op": "walker", "m": m, "i": rng.randrange(12)}
                 if m in ("insert", "replace"):
                     op["item"] = self.gen_item(rng, next(tagc))
+                if m == "insert" and rng.random() < 0.15:
+                    op["dup"] = rng.randrange(12)
                 if m in ("extend", "iadd", "slice_assign"):
                     op["items"] = [self.gen_item(rng, next(tagc)) for _ in range(rng.randint(0, 3))]
                     op["len"] = rng.randint(0, 3)
